@@ -1,1 +1,225 @@
 //! ntpd facade fragment "source": re-exports / wrappers (and per-run thread-local seams) for the world that owns it.
+//!
+//! Owner: world w1c (plain NTP client source). Hook H15: a simulated connected UDP socket with the
+//! `recv` / `send` surface `SourceTask::run` uses from `timestamped_socket::socket::Socket<SocketAddr, Connected>`,
+//! so that the REAL `SourceTask::run` loop (send-timestamp bookkeeping that defines T1, the `< 48` byte
+//! drop, a fresh socket per poll, action dispatch, `MsgForSystem`) runs against the simulator's network.
+//! All traffic goes through a per-thread (= per-run) hub installed by the harness; nothing here draws
+//! randomness or reads a real clock.
+
+use std::cell::RefCell;
+use std::collections::BTreeMap;
+use std::marker::PhantomData;
+use std::net::SocketAddr;
+
+use timestamped_socket::socket::{GeneralTimestampMode, InterfaceTimestampMode, TimestampData};
+pub use timestamped_socket::socket::RecvResult;
+
+pub use super::super::ntp_source::{MsgForSystem, SourceChannels};
+
+pub struct Connected;
+pub struct Open;
+
+/// A datagram a source task put on the wire.
+#[derive(Debug, Clone)]
+pub struct Outbound {
+    pub socket: u64,
+    pub peer: SocketAddr,
+    pub bytes: Vec<u8>,
+    /// simulated (paused-clock) instant of the send
+    pub at: tokio::time::Instant,
+}
+
+#[derive(Default)]
+struct Hub {
+    next_socket: u64,
+    /// open sockets: id -> (peer, inbox sender)
+    open: BTreeMap<u64, (SocketAddr, tokio::sync::mpsc::UnboundedSender<Vec<u8>>)>,
+    outbox: Vec<Outbound>,
+    notify: Option<std::sync::Arc<tokio::sync::Notify>>,
+    consumed: Option<std::sync::Arc<tokio::sync::Notify>>,
+    /// connect_address fails while this is set (simulated "network unreachable at socket setup")
+    refuse_connect: bool,
+}
+
+thread_local! {
+    static HUB: RefCell<Hub> = RefCell::new(Hub::default());
+}
+
+/// Start of a run: forget everything; `notify` is poked whenever a task sends a datagram,
+/// `consumed` whenever a task takes a delivered datagram out of its socket.
+pub fn hub_reset(notify: std::sync::Arc<tokio::sync::Notify>, consumed: std::sync::Arc<tokio::sync::Notify>) {
+    HUB.with(|h| {
+        *h.borrow_mut() = Hub {
+            notify: Some(notify),
+            consumed: Some(consumed),
+            ..Hub::default()
+        }
+    });
+}
+
+/// End of a run: drop all channel ends held by the hub.
+pub fn hub_clear() {
+    HUB.with(|h| *h.borrow_mut() = Hub::default());
+}
+
+/// Datagrams sent by source tasks since the last call.
+pub fn hub_take_outbox() -> Vec<Outbound> {
+    HUB.with(|h| std::mem::take(&mut h.borrow_mut().outbox))
+}
+
+/// The socket currently connected to `peer` (the newest one), if any.
+pub fn hub_socket_for(peer: SocketAddr) -> Option<u64> {
+    HUB.with(|h| h.borrow().open.iter().rev().find(|(_, (p, _))| *p == peer).map(|(id, _)| *id))
+}
+
+/// Deliver a datagram to an open socket; false if that socket is closed (the datagram vanishes,
+/// as on a real host where the ephemeral port is gone).
+pub fn hub_deliver(socket: u64, bytes: Vec<u8>) -> bool {
+    HUB.with(|h| match h.borrow().open.get(&socket) {
+        Some((_, tx)) => tx.send(bytes).is_ok(),
+        None => false,
+    })
+}
+
+pub fn hub_refuse_connect(refuse: bool) {
+    HUB.with(|h| h.borrow_mut().refuse_connect = refuse);
+}
+
+pub struct Socket<A, S> {
+    id: u64,
+    peer: Option<SocketAddr>,
+    rx: tokio::sync::mpsc::UnboundedReceiver<Vec<u8>>,
+    _p: PhantomData<(A, S)>,
+}
+
+impl<A, S> Drop for Socket<A, S> {
+    fn drop(&mut self) {
+        let id = self.id;
+        let _ = HUB.try_with(|h| {
+            if let Ok(mut h) = h.try_borrow_mut() {
+                h.open.remove(&id);
+            }
+        });
+    }
+}
+
+fn open_socket<S>(peer: Option<SocketAddr>) -> std::io::Result<Socket<SocketAddr, S>> {
+    HUB.with(|h| {
+        let mut h = h.borrow_mut();
+        if h.refuse_connect {
+            return Err(std::io::Error::from_raw_os_error(libc::ENETUNREACH));
+        }
+        let (tx, rx) = tokio::sync::mpsc::unbounded_channel();
+        h.next_socket += 1;
+        let id = h.next_socket;
+        if let Some(p) = peer {
+            h.open.insert(id, (p, tx));
+        }
+        Ok(Socket {
+            id,
+            peer,
+            rx,
+            _p: PhantomData,
+        })
+    })
+}
+
+pub fn connect_address(addr: SocketAddr, _timestamping: GeneralTimestampMode) -> std::io::Result<Socket<SocketAddr, Connected>> {
+    open_socket(Some(addr))
+}
+
+pub fn open_interface_udp(
+    _interface: timestamped_socket::interface::InterfaceName,
+    _port: u16,
+    _timestamping: InterfaceTimestampMode,
+    _bind_phc: Option<u32>,
+) -> std::io::Result<Socket<SocketAddr, Open>> {
+    open_socket(None)
+}
+
+impl Socket<SocketAddr, Open> {
+    pub fn connect(self, addr: SocketAddr) -> std::io::Result<Socket<SocketAddr, Connected>> {
+        // re-register under a fresh id as a connected socket
+        drop(self);
+        open_socket(Some(addr))
+    }
+}
+
+impl Socket<SocketAddr, Connected> {
+    pub async fn recv(&mut self, buf: &mut [u8]) -> std::io::Result<RecvResult<SocketAddr>> {
+        match self.rx.recv().await {
+            Some(bytes) => {
+                HUB.with(|h| {
+                    if let Some(n) = &h.borrow().consumed {
+                        n.notify_one();
+                    }
+                });
+                // like a real datagram socket: the datagram is truncated to the buffer
+                let n = bytes.len().min(buf.len());
+                buf[..n].copy_from_slice(&bytes[..n]);
+                let peer = self.peer.expect("connected socket has a peer");
+                Ok(RecvResult {
+                    bytes_read: n,
+                    remote_addr: peer,
+                    local_addr: peer,
+                    // no kernel timestamp: the task substitutes clock.now(), which the simulator owns
+                    timestamp_data: TimestampData {
+                        timestamp_mode: InterfaceTimestampMode::None,
+                        hardware: None,
+                        software: None,
+                    },
+                })
+            }
+            None => std::future::pending().await,
+        }
+    }
+
+    pub async fn send(&mut self, buf: &[u8]) -> std::io::Result<TimestampData> {
+        HUB.with(|h| {
+            let mut h = h.borrow_mut();
+            h.outbox.push(Outbound {
+                socket: self.id,
+                peer: self.peer.expect("connected socket has a peer"),
+                bytes: buf.to_vec(),
+                at: tokio::time::Instant::now(),
+            });
+            if let Some(n) = &h.notify {
+                n.notify_one();
+            }
+        });
+        Ok(TimestampData {
+            timestamp_mode: InterfaceTimestampMode::None,
+            hardware: None,
+            software: None,
+        })
+    }
+}
+
+/// Spawn the REAL `SourceTask` (tokio::spawn inside) for `source`.
+#[allow(clippy::too_many_arguments)]
+pub fn spawn_source_task<C, Controller>(
+    index: ntp_proto::ClockId,
+    name: String,
+    source_addr: SocketAddr,
+    clock: C,
+    channels: SourceChannels,
+    source: ntp_proto::NtpSource<Controller>,
+    initial_actions: ntp_proto::NtpSourceActionIterator,
+) -> tokio::task::JoinHandle<()>
+where
+    C: 'static + ntp_proto::NtpClock + Send + Sync,
+    Controller: ntp_proto::SourceController,
+{
+    super::super::ntp_source::SourceTask::spawn(
+        index,
+        name,
+        source_addr,
+        None,
+        clock,
+        super::super::config::TimestampMode::Software,
+        channels,
+        source,
+        initial_actions,
+    )
+}
